@@ -73,10 +73,10 @@ CLAIMED = {
    text="Decode side under contract (decode_join_group_protocol_metadata proved against the grammar spec); the assignment function itself is checked by a BOUNDED stand-in (all permutations (<=6) of generated member sets / subscriptions / partition maps; oracles: exactly one subscribed owner per partition, balance for identical subscriptions, independence of listing order, decode(encode) round trip).",
    note="_round_robin_assignment uses sets, itertools.cycle and nested defaultdicts, outside the executor's subset.",
    technique='bounded stand-in + proved decoder contract', ref='DESIGN.md section 12'),
- 'C18': dict(category='other',
-   text="BOUNDED stand-in only: pure_murmur2 compared with an independent 32-bit transcription of org.apache.kafka.common.utils.Utils.murmur2 on generated keys (every length mod 4, bytes >= 0x80), HashedPartitioner result against toPositive(murmur2) % n, round-robin fairness over k*n selections with in-place and replaced partition lists.",
-   note="The bit-vector proof of pure_murmur2 planned in DESIGN.md section 8 was not built in this round.",
-   technique='bounded stand-in (no proof)', ref='DESIGN.md section 12'),
+ 'C18': dict(category='proof',
+   text="pure_murmur2 is proved equal, for every key and seed, to a transcription of org.apache.kafka.common.utils.Utils.murmur2 into arithmetic on unsigned 32-bit representatives (loop invariant over the aligned groups, all four tail cases, redundant masks shown to be no-ops); both import-time variants of HashedPartitioner._hash are proved to hash the key's octets (UTF-8 of text, content of bytes/bytearray), and partition() to return partitions[toPositive(h) % n] - so the result is in the list and a function of octets and list only. RoundRobinPartitioner: _set_partitions/partition proved to perform one step of a cycle over a permutation of the given list (cursor +1 wrapping; new cycle on a changed list; result in the list).",
+   note="Assumed, not proved: the Java transcription itself (checked against Kafka's six reference vectors in the thorough tier), the optional C extension, itertools.cycle/randint/sorted models, no aliasing of the caller's list. Fairness over k*n windows is the arithmetic consequence of the proved per-step contract and is exercised, not proved, by a BOUNDED scenario stand-in (also in-place list mutation).",
+   technique='contracts + own VC generator over the ast of afkak/partitioner.py, z3/cvc5; uninterpreted xor with range facts; bounded scenario for window counts', ref='DESIGN.md section 14'),
  'C20': dict(category='other',
    text="Brokerclient.close() is proved (table emptied, every uncancelled request failed once, close Deferred fired only through connection loss / failed attempt: invariants of C06/C10); the bootstrap loop's _closing guards are in place (fix 05dc20c). The aggregate close Deferred of KafkaClient (_close_brokerclients nesting) is checked by a BOUNDED stand-in over generated refresh/close/connection-gone orderings.",
    note="'every request in progress fails at once' for a bootstrap connection attempt already in flight is not satisfied (it ends when the attempt resolves): KNOWN-FINDING.",
